@@ -38,7 +38,7 @@ def required_classes(tier):
         out += ["%s:rt:%s" % (g, k) for k in ("fq-typed-coefficients", "subgroup", "nonsubgroup", "torsion", "chosen-y", "infinity", "rescaled")]
         out += ["%s:word:%s" % (g, k) for k in ("grid", "random", "bitflip")]
         out += ["%s:bytes" % g]
-    out += ["g2:rt:y_im=0", "g2:rt:y_re=0", "g2:rt:y_im=half", "g1:rt:x=0", "g2:compress:offcurve"]
+    out += ["soak:distinct-words", "g2:rt:y_im=0", "g2:rt:y_re=0", "g2:rt:y_im=half", "g1:rt:x=0", "g2:compress:offcurve"]
     return out
 
 
@@ -237,6 +237,35 @@ def run(rec):
         rec.case("g1:bytes", ("b1", z))
         call(gp.pubkey_to_G1, z.to_bytes(48, "big"))
 
+    # soak: distinct valid words through the decoders, the first ones (both sign flags) re-probed afterwards
+    if rec.shard == 4 or not quick:
+        from .common import soak_size, soak_then_reprobe
+        nso = soak_size(["py_ecc.bls.point_compression", "py_ecc.bls.g2_primitives"])
+        P0s = [E1.mul(G1m, rng.randrange(1, params.BLS_R)) for _ in range(3)]
+        probes = []
+        for Pp_ in P0s:
+            for Q_ in (Pp_, E1.neg(Pp_)):
+                probes.append(lambda Q_=Q_: (call(pc.decompress_G1, Z.enc_g1_word(Q_)), call(gp.pubkey_to_G1, Z.enc_g1(Q_)), roundtrip(rec, 1, Q_, "subgroup", rng)))
+
+        def distinct_words():
+            Pt = E1.mul(G1m, rng.randrange(1, params.BLS_R))
+            while True:
+                Pt = E1.add(Pt, G1m)
+                w = Z.enc_g1_word(Pt)
+                yield (lambda w=w: call(pc.decompress_G1, w))
+        soak_then_reprobe(rec, "distinct-words", probes, distinct_words(), nso)
+        if not quick:
+            S0 = E2.mul(G2m, rng.randrange(1, params.BLS_R))
+
+            def distinct_g2():
+                Pt = S0
+                while True:
+                    Pt = E2.add(Pt, G2m)
+                    w = Z.enc_g2_words(Pt)
+                    yield (lambda w=w: call(pc.decompress_G2, w))
+            soak_then_reprobe(rec, "distinct-words", [lambda: call(pc.decompress_G2, Z.enc_g2_words(S0)), lambda: call(pc.decompress_G2, Z.enc_g2_words(E2.neg(S0)))], distinct_g2(), nso)
+    else:
+        rec.case("soak:distinct-words", None, nontrivial=False)
     # ---------------------------------------------------------------- G2 word pairs
     reps2 = 2 if quick else 20
     for rep in range(reps2):
